@@ -15,6 +15,7 @@ import (
 	"github.com/skycoin/skycoin/src/util/logging"
 	"github.com/skycoin/skycoin/src/visor"
 	"github.com/skycoin/skycoin/src/visor/dbutil"
+	"github.com/skycoin/skycoin/src/wallet"
 
 	"verifsim/model"
 	"verifsim/sim"
@@ -42,6 +43,7 @@ func newKey(seed uint64, name string) key {
 
 // world is the per-run universe: keys, parameters, nodes.
 type world struct {
+	wltServ  *wallet.Service // nil except in the API engine
 	c        *sim.Ctx
 	pubKey   key // block publisher
 	genKey   key // owner of the genesis output
@@ -119,7 +121,7 @@ func (n *node) start() error {
 	if err != nil {
 		return fmt.Errorf("open: %w", err)
 	}
-	v, err := visor.New(n.cfg, db, nil)
+	v, err := visor.New(n.cfg, db, n.w.wltServ)
 	if err != nil {
 		db.Close()
 		return fmt.Errorf("visor.New: %w", err)
